@@ -10,7 +10,7 @@ From V Require Import gen.K_client gen.C_client gen.C_rpc gen.C_gkdi gen.K_onlin
 From V Require Import Model.Pdu Model.Request Model.Bind Model.Verification Model.Epm.
 From V Require Import Model.Handshake Model.Framing Model.Seal Model.Recv.
 From V Require Import Model.Types Model.Gkdi Model.Conversation Spec.GkdiLayout.
-From V Require Import Proofs.GkdiGetKey Proofs.GkdiEnvelope Proofs.C13 Proofs.C17Consts Proofs.C17 Proofs.C17Examples.
+From V Require Import Proofs.GkdiGetKey Proofs.GkdiEnvelope Proofs.C13 Proofs.C15 Proofs.C17Consts Proofs.C17 Proofs.C17Examples.
 
 (* ---- request fidelity ----------------------------------------------------------------------------------------------------
    unprotect: whatever the peer does, if a GetKey request goes out then the stub inside the sealed region is the NDR64 encoding
@@ -59,6 +59,28 @@ Theorem C17_ept_map_request : forall (wrap : wrap_fn) (unwrap : unwrap_fn) pv f 
     wire = hdr16 ++ fixed8 (len c_onl_ept_map_stub) c_onl_epm_ctx_id c_onl_ept_map_opnum ++ c_onl_ept_map_stub.
 Proof. exact conversation_ept_request. Qed.
 Print Assumptions C17_ept_map_request.
+
+(* presentation contexts: the first connection's only PDU before the request is an anonymous Bind offering exactly _EPM_CONTEXTS; if
+   the conversation reaches the second connection, its first PDU is a Bind offering exactly _ISD_KEY_CONTEXTS with the provider's
+   first token in a level-6 trailer and header signing offered, and every further PDU of that bind() is an AlterContext *)
+Theorem C17_contexts : forall (wrap : wrap_fn) (unwrap : unwrap_fn) pv f legs dc sd rk l0 l1 l2 r t,
+  get_key_conversation f wrap unwrap pv legs dc sd rk l0 l1 l2 = (r, t) ->
+  tr_epm_binds t = [bind_pdu_of_sent pv epm_contexts (SBind 0 None (context_ids epm_contexts))] /\
+  forall p l ls, tr_port t = Some p -> legs = l :: ls ->
+    exists alters, Forall is_alter alters /\
+      tr_isd_binds t = bind_pdu_of_sent pv isd_key_contexts (SBind 4 (Some (leg_token l)) (context_ids isd_key_contexts))
+                       :: map (bind_pdu_of_sent pv isd_key_contexts) alters.
+Proof. exact conversation_binds. Qed.
+Print Assumptions C17_contexts.
+Theorem C17_offered_contexts : forall pv tok,
+  b_contexts (bind_pdu_of_sent pv epm_contexts (SBind 0 None (context_ids epm_contexts))) = epm_contexts /\
+  b_contexts (bind_pdu_of_sent pv isd_key_contexts (SBind 4 (Some tok) (context_ids isd_key_contexts))) = isd_key_contexts /\
+  b_sec_trailer (bind_pdu_of_sent pv isd_key_contexts (SBind 4 (Some tok) (context_ids isd_key_contexts)))
+    = Some {| st_type := pv_type pv; st_level := 6; st_pad_length := 0; st_context_id := 0; st_auth_value := tok |} /\
+  h_packet_flags (b_header (bind_pdu_of_sent pv isd_key_contexts (SBind 4 (Some tok) (context_ids isd_key_contexts)))) = 7 /\
+  h_packet_flags (b_header (bind_pdu_of_sent pv epm_contexts (SBind 0 None (context_ids epm_contexts)))) = 3.
+Proof. exact offered_contexts. Qed.
+Print Assumptions C17_offered_contexts.
 
 (* ---- sealed at PKT_PRIVACY, with the interface verification trailer ----------------------------------------------------------
    the security trailer names level 6 and the padding; the wire is the 24 header octets, then what the security context returned
